@@ -633,3 +633,89 @@ def balanced_conditionals(ctx):
             ctx.require('ok' not in vals, q, 'the stream `IF %s` never closes the conditional, yet op_if succeeds' % names, fn,
                         'a script with an unbalanced conditional is evaluated as if the ENDIF stood at its end: consensus rejects it')
     ctx.saw('%d command streams (6 unbalanced, 6 balanced) classified as consensus does' % n)
+
+
+@PROP.obligation('C19.under-run', canaries=[
+    mut.replace_stmt('scripts', 'Stack.op_2over', 'if len(self) < 4', "items = self[-4:-2]\nif not items:\n    raise ValueError('Stack op_2over method requires minimum of 4 stack items')", 'OP_2OVER guard tests the (silently truncated) slice'),
+    mut.const('scripts', 'Stack.op_3dup', 3, 2, 'OP_3DUP accepts a stack of two', nth=0),
+    mut.drop_stmt('scripts', 'Stack.op_2swap', 'if len(self) < 4', 'OP_2SWAP size guard removed'),
+])
+def under_run(ctx):
+    """Every fixed-arity handler FAILS (raises or returns False) on a stack that holds fewer items than consensus makes it consume
+    (SCRIPT_ERR_INVALID_STACK_OPERATION): each handler is evaluated on stacks of exactly 0 .. arity-1 items, with Python's list
+    semantics - pop and index raise on a short list, a slice or a slice assignment is silently truncated."""
+    from ..stack import DepthStack
+    repo = ctx.repo
+    handlers = sorted(k for k in repo.methods_of('scripts:Stack') if k.startswith('op_'))
+    n = 0
+    for h in handlers:
+        spec_name = ALIASES.get(h, h)
+        if spec_name not in EFFECTS:
+            continue
+        used = EFFECTS[spec_name][0]
+        q = 'scripts:Stack.' + h
+        fn = repo.func(q)
+        for d in range(used):
+            stk = DepthStack([S(I(k), 'bytes') for k in range(d, 0, -1)])
+            it = Interp(repo, 'scripts', max_depth=5)
+            it.index_errors = True
+            args = {'self': stk}
+            for a in fn.args.args[1:]:
+                args[a.arg] = S(('var', a.arg))
+            try:
+                exits = it.run_function(fn, args)
+            except AnalysisError as e:
+                ctx.undecided('%s on a stack of %d items not evaluable: %s' % (h, d, str(e)[:100]))
+            n += 1
+            ok = [e for e in exits if e.kind == 'return' and term(e.value) is not False]
+            if ok:
+                after = ok[0].env.get('self') if ok[0].env else None
+                ctx.violate(q, '%s succeeds on a stack of %d item%s (consensus consumes %d)%s' % (spec_name.upper(), d, '' if d == 1 else 's', used,
+                            ', leaving [%s]' % ', '.join(show(term(x))[:16] for x in after.items) if isinstance(after, DepthStack) else ''), fn,
+                            'a script that under-runs the stack fails under consensus but is evaluated further - possibly to "valid" - here')
+    ctx.saw('%d (handler, short stack) scenarios evaluated' % n)
+    ctx.floor(n, 70, 'under-run scenarios')
+
+
+# Bitcoin Core script/script.h, enum opcodetype: consecutive from OP_PUSHDATA1 = 0x4c to OP_NOP10 = 0xb9
+_CONSENSUS_SEQ = """PUSHDATA1 PUSHDATA2 PUSHDATA4 1NEGATE RESERVED 1 2 3 4 5 6 7 8 9 10 11 12 13 14 15 16 NOP VER IF NOTIF VERIF VERNOTIF ELSE ENDIF VERIFY
+RETURN TOALTSTACK FROMALTSTACK 2DROP 2DUP 3DUP 2OVER 2ROT 2SWAP IFDUP DEPTH DROP DUP NIP OVER PICK ROLL ROT SWAP TUCK CAT SUBSTR LEFT RIGHT SIZE INVERT
+AND OR XOR EQUAL EQUALVERIFY RESERVED1 RESERVED2 1ADD 1SUB 2MUL 2DIV NEGATE ABS NOT 0NOTEQUAL ADD SUB MUL DIV MOD LSHIFT RSHIFT BOOLAND BOOLOR NUMEQUAL
+NUMEQUALVERIFY NUMNOTEQUAL LESSTHAN GREATERTHAN LESSTHANOREQUAL GREATERTHANOREQUAL MIN MAX WITHIN RIPEMD160 SHA1 SHA256 HASH160 HASH256 CODESEPARATOR
+CHECKSIG CHECKSIGVERIFY CHECKMULTISIG CHECKMULTISIGVERIFY NOP1 CHECKLOCKTIMEVERIFY CHECKSEQUENCEVERIFY NOP4 NOP5 NOP6 NOP7 NOP8 NOP9 NOP10""".split()
+CONSENSUS_OPCODES = dict(('OP_' + n, 0x4c + i) for i, n in enumerate(_CONSENSUS_SEQ))
+CONSENSUS_OPCODES.update({'OP_0': 0, 'OP_FALSE': 0, 'OP_TRUE': 0x51, 'OP_NOP2': 0xb1, 'OP_NOP3': 0xb2, 'OP_CHECKSIGADD': 0xba, 'OP_INVALIDOPCODE': 0xff})
+
+
+def _mut_swap_opcodes(a, b):
+    def mutate(tree):
+        done = [0]
+        for n in ast.walk(tree):
+            if isinstance(n, ast.Constant) and n.value in (a, b):
+                n.value = b if n.value == a else a
+                done[0] += 1
+        return done[0] == 2
+    return mutate
+
+
+@PROP.obligation('C19.opcode-numbers', canaries=[
+    mut.Canary('OP_RIPEMD160 and OP_SHA1 transposed in the positional table', 'config.opcodes', _mut_swap_opcodes('OP_RIPEMD160', 'OP_SHA1')),
+    mut.Canary('OP_MIN and OP_MAX transposed in the positional table', 'config.opcodes', _mut_swap_opcodes('OP_MIN', 'OP_MAX')),
+])
+def opcode_numbers(ctx):
+    """The byte value of every opcode name is the consensus one (Bitcoin Core script.h): scripts arrive as BYTES and are dispatched
+    through opcodenames[byte], so a transposition in the positional table makes two handlers evaluate each other's opcode while every
+    script written by NAME still round-trips. The table replayed from config/opcodes.py is compared entry by entry."""
+    names = ctx.repo.consts('scripts').get('opcodenames')
+    if not isinstance(names, dict):
+        ctx.undecided('opcodenames not reconstructed')
+    n = 0
+    for code, nm in sorted(names.items()):
+        if nm not in CONSENSUS_OPCODES:
+            ctx.unsure('opcode name %s (%#x) is not in the consensus table of this check' % (nm, code))
+            continue
+        n += 1
+        ctx.require(CONSENSUS_OPCODES[nm] == code, 'config.opcodes:_opcodes', 'opcode name %s is numbered %#04x, consensus: %#04x' % (nm, code, CONSENSUS_OPCODES[nm]), None,
+                    'a script containing byte %#04x is evaluated by the handler of %s' % (code, nm))
+    ctx.saw('%d opcode numbers compared with the consensus table' % n)
+    ctx.floor(n, 110, 'opcode numbers')
